@@ -310,6 +310,8 @@ impl DBM {
     }
 
     /// Stores an appointments receipt into the database representing an appointment accepted by a given tower.
+    ///
+    /// If the appointment was flagged as invalid for that tower, it is not anymore.
     pub fn store_appointment_receipt(
         &mut self,
         tower_id: TowerId,
@@ -332,6 +334,18 @@ impl DBM {
         tx.execute(
             "UPDATE towers SET available_slots=?1 WHERE tower_id=?2",
             params![available_slots, tower_id.to_vec()],
+        )?;
+        // The tower may have rejected this same appointment before (it is kept as invalid then). The signed receipt supersedes
+        // that: an appointment is either accepted or invalid for a tower, not both. Its data goes with the last reference to it.
+        tx.execute(
+            "DELETE FROM invalid_appointments WHERE locator=?1 AND tower_id=?2",
+            params![locator.to_vec(), tower_id.to_vec()],
+        )?;
+        tx.execute(
+            "DELETE FROM appointments WHERE locator=?1
+                AND locator NOT IN (SELECT locator FROM pending_appointments)
+                AND locator NOT IN (SELECT locator FROM invalid_appointments)",
+            params![locator.to_vec()],
         )?;
         tx.commit()
     }
